@@ -168,7 +168,30 @@ TVamanaPair ==
          DB(i) == E.b[CHOOSE k \in DOMAIN E.b : E.b[k].id = i].d
      IN  /\ \A i \in A \ B : \E j \in B \ A : DA(i) = DB(j)
          /\ \A j \in B \ A : \E i \in A \ B : DA(i) = DB(j)
-  /\ HitsSound(S, U, pts, E.p, E.vec, E.limit, 4, [k |-> "all"], [k \in DOMAIN E.a |-> [id |-> E.a[k].id, d |-> E.a[k].d, h4 |-> 0 - 4 * E.a[k].d]], E.tol)
+  /\ IF E.quant = 1
+     THEN \* a trained quantiser decides the distance: membership and order only
+          /\ {E.a[k].id : k \in DOMAIN E.a} \subseteq Cands(S, U, pts, E.p, [k |-> "all"])
+          /\ Len(E.a) <= E.limit
+          /\ \A k \in DOMAIN E.a : k > 1 => E.a[k - 1].d <= E.a[k].d
+     ELSE HitsSound(S, U, pts, E.p, E.vec, E.limit, 4, [k |-> "all"], [k \in DOMAIN E.a |-> [id |-> E.a[k].id, d |-> E.a[k].d, h4 |-> 0 - 4 * E.a[k].d]], E.tol)
+
+\* the same flat search warm and cold when a trained quantiser decides the
+\* distances (the model does not recompute them): both answers have the same
+\* distance profile, differ only among equal distances, come from the
+\* candidate set and have the full length
+TFlatPair ==
+  /\ IsEvent("FlatPair") /\ Obs
+  /\ LET cand == Cands(S, U, pts, E.p, E.filter)
+         A == {E.a[k].id : k \in DOMAIN E.a}
+         B == {E.b[k].id : k \in DOMAIN E.b}
+         DA(i) == E.a[CHOOSE k \in DOMAIN E.a : E.a[k].id = i].d
+         DB(i) == E.b[CHOOSE k \in DOMAIN E.b : E.b[k].id = i].d
+     IN  /\ Len(E.a) = Min2(E.limit, Cardinality(cand)) /\ Len(E.b) = Len(E.a)
+         /\ Cardinality(A) = Len(E.a) /\ Cardinality(B) = Len(E.b)
+         /\ A \subseteq cand /\ B \subseteq cand
+         /\ \A k \in DOMAIN E.a : E.a[k].d = E.b[k].d
+         /\ \A k \in DOMAIN E.a : k > 1 => E.a[k - 1].d <= E.a[k].d
+         /\ \A i \in A \ B : \E j \in B \ A : DA(i) = DB(j)
 
 TText ==
   /\ IsEvent("Text") /\ Obs
@@ -258,7 +281,7 @@ TQuiet == IsEvent("Quiet") /\ Obs
 
 TraceNext ==
   \/ TReset \/ TFault \/ TInsert \/ TUpdate \/ TDelete \/ TFork \/ TRestore \/ TCrash
-  \/ TCount \/ TGet \/ TFilter \/ TFlat \/ TVamana \/ TVamanaPair \/ TCSearch \/ TErrKnown \/ TText \/ TGraph \/ TQuiet
+  \/ TCount \/ TGet \/ TFilter \/ TFlat \/ TVamana \/ TVamanaPair \/ TFlatPair \/ TCSearch \/ TErrKnown \/ TText \/ TGraph \/ TQuiet
 
 TraceSpec == TraceInit /\ [][TraceNext]_vars
 
